@@ -10,6 +10,8 @@ From Blue Require Wire.Model Wire.ModelMsg Wire.Spec Wire.ProofsVarint Wire.Proo
 Import ListNotations.
 Open Scope N_scope.
 
+Module WM := Blue.Wire.Model.
+Module WG := Blue.Wire.ModelMsg.
 Module WS := Blue.Wire.Spec.
 Module WPV := Blue.Wire.ProofsVarint.
 Module WPS := Blue.Wire.ProofsScalar.
